@@ -237,10 +237,24 @@ def run(ctx):
     if art.get("hx"):
         explore(ctx, art)
     glue(ctx, art)
+    # the block option's use sites: early block-size negotiation with every wire encoding of the value (empty = 0, zero-padded,
+    # one byte) against a real tcp.Server and in line histories judged by C04's `szx` clause
+    from . import c04
+    with common.Lock():
+        t4 = common.build_test(ctx, "c04")
+        d4 = common.build_driver(ctx, "C04")
+    if t4:
+        c04.early_negotiation_check(ctx, t4, d4, "C19", "decoding-defined-on-the-whole-domain")
     return common.finish(ctx)
 
 
 def replay(ctx, rep):
+    if (rep.get("scenario") and str(rep.get("test", "")).startswith("TestC04")) or str(rep.get("replay_with", "")).startswith("bin/check C04"):
+        from . import c04
+        rc = c04.replay(ctx, rep)
+        if rc:
+            print("VIOLATION property=C19 replay=(replayed) still reproduces")
+        return rc
     art = common.standard_prepare(ctx, MODULES, generated=["Blockwise.lean"])
     lines = rep.get("input") or []
     if not lines:
